@@ -40,6 +40,8 @@ def _field_atoms(atoms, lib, body, pr, fidx_input):
 
 
 def run(ctx, rep):
+    from rules import c11 as _c11
+    _c11.get_pure(rep, ctx.lib)
     lib = ctx.lib
     tab = common.table("context_frame.toml")
     cadt = lib.adts.get("processor::Context")
